@@ -412,3 +412,14 @@ pub fn t_cycle<'a>(a: S<'a, u32>) {
     carry_complete.complete_next_tick(all.clone());
     all.all_ticks().embedded_output("out");
 }
+
+/// C29 finding witness: the right (build) side is Bounded but NoOrder; `Stream::join` types the
+/// result with the LEFT ordering (`B2::PreserveOrderIfBounded<O>` ignores `O2`), so this compiles
+/// with `embedded_output` (which requires TotalOrder) and no `assume_ordering`, although the order
+/// of the matches of one left item follows the arrival order of the unordered right side.
+pub fn t_join_half_unord<'a>(a: S<'a, KV>, b: S<'a, KV>) {
+    let (ba, bb) = b2(a, b);
+    ba.join(bb.weaken_ordering::<NoOrder>())
+        .all_ticks()
+        .embedded_output("out");
+}
